@@ -220,6 +220,9 @@ class GenericElongationGroove(GrooveBase, ReprMixin):
             for z in np.linspace(self.z6, self.z7, Config.GROOVE_RADIUS_POINT_COUNT, endpoint=False):
                 yield z, self._r4_contour_line(z)
 
+        if not np.isclose(self.z7, self.z9):
+            yield self.z7, self.y7
+
         yield self.z9, self.y9
 
     @property
